@@ -78,6 +78,7 @@ def normalise(ep, ncpu):
     out = [header(prog, ncpu)]
     jobkeys = [str(j['key']) for j in out[0]['jobs']]
     pend_items = {}
+    genids = {}
 
     curmax = [0]
 
@@ -133,7 +134,9 @@ def normalise(ep, ncpu):
                 d['items'] = its
             out.append(d)
         elif ev == 'wf.enter':
-            out.append(mk(ev='enter', p=e['p'], job=e['job'], id=e.get('id', ''), idgen=str(e.get('id', '')).startswith(('gen-', 'g:gen-')),
+            jid = str(e.get('id', ''))
+            fresh = genids.setdefault(jid, e['job']) == e['job']          # the generator runs once per job: no two jobs share a generated ID
+            out.append(mk(ev='enter', p=e['p'], job=e['job'], id=e.get('id', ''), idgen=jid.startswith(('gen-', 'g:gen-')) and fresh,
                           st=e.get('status', ''), cons=e.get('cons', 0), line=e['seq']))
         elif ev == 'wf.exit':
             out.append(mk(ev='exit', p=e['p'], job=e['job'], out=e.get('out', ''), st=e.get('status', ''), line=e['seq']))
